@@ -5,8 +5,9 @@ import PyrollProofs.RollObjectLemmas
 # C10 — all representations of one groove or roll surface describe the same shape
 
 The theorems are about the tables `driver/translate/c10_depth.py` regenerates from the source on every run
-(`PyrollModel/Gen/C10.lean`: junction chain, contour-line functions, the `np.piecewise` table of `local_depth`, the segment
-list of `_enumerate_contour_points`, the roll's `surface_x / surface_y / surface_z / contour_points` formulas, the
+(`PyrollModel/Gen/C10.lean`: junction chain, contour-line functions, what `local_depth` does to its argument before
+`np.piecewise` (`depth_arg_ops`) and its `np.piecewise` table, the segment list of `_enumerate_contour_points`, the roll's
+`surface_x / surface_y / surface_z / contour_points` formulas, what `surface_interpolation` does to its positions, the
 spline groove's centring / width / depth terms, the entry-point formula) run by the hand-written model
 `PyrollModel/GrooveRep.lean`, over ℝ.
 
@@ -58,6 +59,109 @@ theorem vertices_on_depth_function (o : Ordered σ) (p : Params σ) (n : ℕ) :
   · have := right_vertices_on_depth σ o p n w (List.dropLast_subset _ hw)
     simpa [mirrorPt, D_even] using this
   · exact right_vertices_on_depth σ o p n v hv
+
+/-! ## the argument of the depth function: whichever numeric kind the caller holds the abscissa in
+
+`local_depth(z)` is called with python ints and floats, numpy integer / float scalars, lists and arrays of either.  The
+translator reads what the source does to `z` before `np.piecewise` into `depth_arg_ops`; `localDepthElem` runs these
+conversions on one entry of the argument (`.int n` / `.float x`), evaluates the piecewise table at the position the converted
+entry stands for and stores the value with the dtype of the converted entry, as `np.piecewise` does (an integer dtype
+truncates toward zero). -/
+
+/-- handed a float, the translated `local_depth` hands back a float: the depth function `D σ` of the groove theorems
+    (this ties the conversions read from the source to the `D σ` all other theorems are about) -/
+theorem depth_of_float_argument (x : ℝ) :
+    localDepthElem depth_arg_ops pieces depth_default σ (.float x) = .float (D σ x) := localDepthElem_float σ x
+
+/-- the value at the INTEGER `n` is the value at the real number `n`: the translated `local_depth` commutes with the embedding
+    of the integers into the floats, and what it hands back is a float (nothing is truncated) - because the source converts its
+    argument to float before `np.piecewise` -/
+theorem depth_commutes_with_int_embedding (h : ArgOp.asFloat ∈ depth_arg_ops) (n : ℤ) :
+    localDepthElem depth_arg_ops pieces depth_default σ (.int n)
+        = localDepthElem depth_arg_ops pieces depth_default σ (.float (n : ℝ))
+      ∧ localDepthElem depth_arg_ops pieces depth_default σ (.int n) = .float (D σ n) :=
+  ⟨by rw [localDepthElem_int σ h n, localDepthElem_float], localDepthElem_int σ h n⟩
+
+/-- the same for whole arguments: an integer scalar / an integer list or array is answered entry by entry like the float
+    scalar / the float array of the same positions -/
+theorem depth_of_integer_argument (h : ArgOp.asFloat ∈ depth_arg_ops) (n : ℤ) (ns : List ℤ) :
+    localDepthArg depth_arg_ops pieces depth_default σ (.int n)
+        = localDepthArg depth_arg_ops pieces depth_default σ (.float (n : ℝ))
+      ∧ localDepthArg depth_arg_ops pieces depth_default σ (.intArray ns)
+        = localDepthArg depth_arg_ops pieces depth_default σ (.floatArray (ns.map fun (n : ℤ) => (n : ℝ)))
+      ∧ localDepthArg depth_arg_ops pieces depth_default σ (.intArray ns) = ns.map fun (n : ℤ) => .float (D σ n) := by
+  refine ⟨?_, ?_, ?_⟩
+  · simp only [localDepthArg, PyArg.elems, List.map_cons, List.map_nil, (depth_commutes_with_int_embedding σ h n).1]
+  · induction ns with
+    | nil => rfl
+    | cons a t ih =>
+      simp only [localDepthArg, PyArg.elems, List.map_cons] at ih ⊢
+      rw [(depth_commutes_with_int_embedding σ h a).1, ih]
+  · induction ns with
+    | nil => rfl
+    | cons a t ih =>
+      simp only [localDepthArg, PyArg.elems, List.map_cons] at ih ⊢
+      rw [(depth_commutes_with_int_embedding σ h a).2, ih]
+
+/-- the harness demands the conversion (`DEPTH_FLOAT_REQUIRED` of driver/props/c10.py, written into the generated file):
+    on a source whose `local_depth` hands its argument to `np.piecewise` unconverted this does not build -/
+theorem depth_argument_conversion_as_required : depth_float_required = true → ArgOp.asFloat ∈ depth_arg_ops := by decide
+
+/-- every contour vertex whose abscissa is a whole number lies on the depth function ALSO for a caller who holds that
+    abscissa in an integer (the centre vertex `z9 = 0` of every groove is such a vertex) -/
+theorem integer_vertices_on_depth_function (o : Ordered σ) (p : Params σ) (h : ArgOp.asFloat ∈ depth_arg_ops) (n : ℕ) :
+    ∀ v ∈ contour σ n segments, ∀ k : ℤ, v.1 = k →
+      localDepthElem depth_arg_ops pieces depth_default σ (.int k) = .float v.2 := by
+  intro v hv k hk
+  rw [(depth_commutes_with_int_embedding σ h k).2, ← hk, vertices_on_depth_function σ o p n v hv]
+
+/-- decided on the generated conversions: EITHER the source converts to float and the depth at every integer is the depth at
+    that real number, for every groove (the repaired form) OR it does not and the trapezoid `σ1` (usable width 5, ground width
+    3, depth 1, flank 45 deg), 1/2 deep at the abscissa 2, is 0 deep when asked with the integer 2 (the form of /repo before
+    the repair: `z = np.abs(z)` only) -/
+theorem generated_argument_conversion :
+    (ArgOp.asFloat ∈ depth_arg_ops ∧ ∀ (σ : String → ℝ) (n : ℤ),
+        localDepthElem depth_arg_ops pieces depth_default σ (.int n) = .float (D σ n))
+      ∨ (ArgOp.asFloat ∉ depth_arg_ops ∧ localDepthElem depth_arg_ops pieces depth_default σ1 (.int 2) = .int 0
+          ∧ D σ1 2 = 1 / 2) := by
+  first
+  | exact Or.inl ⟨by decide, fun σ n => localDepthElem_int σ (by decide) n⟩
+  | exact Or.inr ⟨by decide, σ1_unconverted_int, σ1_depth_at_two⟩
+
+/-- witness on written-out conversions (whatever the source has today): WITHOUT a conversion to float (`z = np.abs(z)`) the
+    trapezoid `σ1`, 1/2 deep at the abscissa 2, is 0 deep when asked with the integer 2 - the result has the integer dtype of
+    the argument; WITH it (`z = np.abs(np.asarray(z, dtype=float))`) the integer 2 is answered with the float 1/2.  Replayed
+    on the implementation (corpus groove of driver/props/c10.py, `GenericElongationGroove(usable_width=5, depth=1,
+    even_ground_width=3, flank_angle=pi/4, r1=0, r2=0, pad=1).local_depth(2)`) -/
+theorem unconverted_integer_argument_is_truncated :
+    localDepthElem [.abs] pieces depth_default σ1 (.int 2) = .int 0
+      ∧ localDepthElem [.asFloat, .abs] pieces depth_default σ1 (.int 2) = .float (1 / 2)
+      ∧ localDepthElem [.abs] pieces depth_default σ1 (.float 2) = .float (1 / 2) := by
+  have h := σ1_depth_at_two
+  rw [D_unfold, abs_of_nonneg (by norm_num : (0:ℝ) ≤ 2), F] at h
+  have e : (ofInt (Int.natAbs 2 : ℕ) : ℝ) = 2 := by rw [ofInt_real]; norm_num
+  have e2 : (ofInt 2 : ℝ) = 2 := by rw [ofInt_real]; norm_num
+  refine ⟨σ1_unconverted_int, ?_, ?_⟩
+  · simp only [localDepthElem, convElem, List.foldl, ArgOp.onElem, PyScalar.val, storeLike, depth_default, e2,
+      PyNum.abs_real, abs_of_nonneg (by norm_num : (0:ℝ) ≤ 2), h]
+  · simp only [localDepthElem, convElem, List.foldl, ArgOp.onElem, PyScalar.val, storeLike, depth_default,
+      PyNum.abs_real, abs_of_nonneg (by norm_num : (0:ℝ) ≤ 2), h]
+
+example : Ordered σ1 ∧ Params σ1 ∧ D σ1 2 = 1 / 2 := ⟨σ1_ordered, σ1_params, σ1_depth_at_two⟩
+/-- the hypothesis `ArgOp.asFloat ∈ depth_arg_ops` holds for what the repaired source gives -/
+example : ArgOp.asFloat ∈ [ArgOp.asFloat, ArgOp.abs] ∧ ArgOp.asFloat ∉ [ArgOp.abs] := by decide
+/-- the centre vertex of the trapezoid `σ1` (any sample count), asked for with the integer 0 -/
+example (h : ArgOp.asFloat ∈ depth_arg_ops) :
+    localDepthElem depth_arg_ops pieces depth_default σ1 (.int 0) = .float 1 := by
+  have hv : ((0 : ℝ), (1 : ℝ)) ∈ contour σ1 3 segments := by
+    have e9 : Expr.eval σ1 y9 = 1 := by simp [y9, Expr.eval, σ1]
+    simp only [contour, assemble, rightSide, segments, List.flatMap_cons, List.flatMap_nil, List.mem_append, List.mem_reverse]
+    right
+    simp only [segPoints]
+    right; right; right; right; right; right
+    rw [e_z9, e9]
+    exact Or.inl (List.mem_singleton.mpr rfl)
+  simpa using integer_vertices_on_depth_function σ1 σ1_ordered σ1_params h 3 _ hv 0 (by simp)
 
 /-! ## roll surface -/
 
@@ -120,6 +224,44 @@ theorem surface_interpolation_at_high_point (ρ : String → ℝ) (xs zs ys : Li
     bilinear xs zs (surfaceGridT ρ surface_y ys xs) 0 z = interp1 (zs.zip ys) z := by
   rw [bilinear_at_x_node xs zs _ hx (by rw [length_zip_grid]; exact hlen) 0 _ (mem_zip_grid ρ ys xs 0 h0) z,
     surface_row_at_high_point ρ ys hy]
+
+/-! ### the positions handed to `surface_interpolation`: whichever numeric kind the caller holds them in -/
+
+/-- the generated `surface_interpolation` evaluates the surface at the positions AS GIVEN: nothing the source does to `x`
+    and `z` before `interpn` moves them (no folding onto one quadrant: `np.abs` is not among the conversions read) -/
+theorem interpolation_positions_as_given : ArgOp.abs ∉ interp_x_ops ∧ ArgOp.abs ∉ interp_z_ops := by decide
+
+/-- `surface_interpolation(x, z)` is the (bi)linear interpolation at the positions the two arguments stand for, in whatever
+    numeric kind (integer / float) each of them is handed over -/
+theorem interpolation_independent_of_numeric_type (xs zs : List ℝ) (G : List (List ℝ)) (x z : PyScalar ℝ) :
+    surfaceInterpElem interp_x_ops interp_z_ops xs zs G x z = bilinear xs zs G x.val z.val := by
+  rw [surfaceInterpElem, convElem_val_of_no_abs _ interpolation_positions_as_given.1,
+    convElem_val_of_no_abs _ interpolation_positions_as_given.2]
+
+/-- the array form commutes with the embedding of the integers: integer lists / arrays of positions are answered like the
+    float arrays of the same positions, one row per `z`, one column per `x` -/
+theorem interpolation_commutes_with_int_embedding (xs zs : List ℝ) (G : List (List ℝ)) (is ks : List ℤ) :
+    surfaceInterpArg interp_x_ops interp_z_ops xs zs G (.intArray is) (.intArray ks)
+        = surfaceInterpArg interp_x_ops interp_z_ops xs zs G (.floatArray (is.map fun (i : ℤ) => (i : ℝ)))
+            (.floatArray (ks.map fun (k : ℤ) => (k : ℝ)))
+      ∧ surfaceInterpArg interp_x_ops interp_z_ops xs zs G (.intArray is) (.intArray ks)
+        = ks.map fun (k : ℤ) => is.map fun (i : ℤ) => bilinear xs zs G i k := by
+  constructor <;>
+    simp only [surfaceInterpArg, PyArg.elems, List.map_map, interpolation_independent_of_numeric_type, Function.comp_def,
+      PyScalar.val, ofInt_real]
+
+/-- asked for the high point with the INTEGER 0, the interpolated surface is the contour polyline at every `z` -/
+theorem surface_interpolation_at_integer_high_point (ρ : String → ℝ) (xs zs ys : List ℝ) (hx : xs.Pairwise (· < ·))
+    (h0 : (0 : ℝ) ∈ xs) (hlen : 2 ≤ xs.length) (hy : ∀ y ∈ ys, y ≤ ρ "max_radius") (z : PyScalar ℝ) :
+    surfaceInterpElem interp_x_ops interp_z_ops xs zs (surfaceGridT ρ surface_y ys xs) (.int 0) z
+      = interp1 (zs.zip ys) z.val := by
+  rw [interpolation_independent_of_numeric_type]
+  simpa [PyScalar.val] using surface_interpolation_at_high_point ρ xs zs ys hx h0 hlen hy z.val
+
+example : surfaceInterpArg interp_x_ops interp_z_ops [(-1 : ℝ), 0, 1] [(-1 : ℝ), 0, 1] [[3, 1, 3], [2, 0, 2], [3, 1, 3]]
+    (.intArray [0, 1]) (.intArray [-1]) = [[2, 3]] := by
+  rw [(interpolation_commutes_with_int_embedding _ _ _ _ _).2]
+  simp [bilinear, interp1, lerp, PyNum.le]
 
 /-! ## interpolation on the grid -/
 
